@@ -66,6 +66,41 @@ def cases(draw, tier="quick"):
                                            "const_extra": draw(st.sampled_from([0, 1]))},
                 "margin": draw(st.sampled_from([1e-1, 1e-2, 1e-4])), "seed": draw(st.integers(0, 10 ** 6)),
                 "randomize_action_order": True}
+    if draw(st.integers(0, 7)) == 0:
+        # gadget: a state x that gets labelled with a non-zero residual is shared by two branches (s and y) that are checked
+        # at different times; at s a second action (sure move to an expensive state b) is exactly tied *under the heuristic*
+        # with the verified one. Anything that lets labelled values drift, or labels too early, flips s to the unverified
+        # action. Parametrised by costs, branching weights, looseness and margin.
+        cx, cb, cz = draw(st.sampled_from([-1, -2])), draw(st.sampled_from([-5, -8, -3.5])), draw(st.sampled_from([-1, -2, -1.5]))
+        w1, w2 = draw(st.sampled_from([(1, 1), (1, 2), (2, 1)]))
+        delta = draw(st.sampled_from([0.1, 0.2, 0.25]))
+        a1, a2 = draw(st.sampled_from([(0, 1), (1, 0)]))
+        tr = [[[0, [[0, 1, 0]]]],
+              [[0, [[2, 1, 0], [5, 1, 0]]]],
+              sorted([[a1, [[3, w1, 0], [0, w2, 0]]], [a2, [[4, 1, 0]]]]),
+              [[0, [[0, 1, cx]]]], [[0, [[0, 1, cb]]]],
+              [[0, [[3, 1, 0], [6, 1, 0]]]], [[0, [[0, 1, cz]]]]]
+        from vpm.labels import enc
+        lab = draw(st.sampled_from(["int", "str"]))
+        spec = {"n": 7, "m": 2, "gamma": 1.0, "flavour": "ssp", "slabels": [enc(i if lab == "int" else f"s{i}") for i in range(7)],
+                "alabels": [enc(0), enc(1)] if lab == "int" else [enc("a0"), enc("a1")], "trans": tr, "absorbing": [1, 0, 0, 0, 0, 0, 0],
+                "p0": [[1, 1]], "explicit_states": None, "explicit_actions": None}
+        px = w1 / (w1 + w2)
+        vs = px * cx
+        vy = 0.5 * cx + 0.5 * cz
+        slack = [0, -(0.5 * vs + 0.5 * vy), px * delta, delta, 0, -vy, -cz]      # h = 0 at s0, y, z; b is raised by "tie2"
+        return {"mdp": spec, "heuristic": {"kind": "tie2", "slack": slack, "const_extra": 0},
+                "margin": draw(st.sampled_from([0.3, 0.5])), "seed": draw(st.integers(0, 10 ** 6)),
+                "randomize_action_order": draw(st.booleans())}
+    if draw(st.integers(0, 3)) == 0:
+        # generous margins with heuristics that are loose by less than the margin: states get labelled with a non-zero
+        # residual, and labelled states are shared between branches that are checked at different times
+        spec = draw(mdp_specs(draw(st.sampled_from(["ssp", "dproper"])), min_states=4, max_states=7 if big else 6, allow_explicit=False,
+                              max_out=3, absorbing_kinds=("n", "n", "n", "n", "n", "abs"), reward_values=[-1, -1, -2, -0.5, 0]))
+        return {"mdp": spec, "heuristic": {"kind": draw(st.sampled_from(["slack", "tie2", "tie2"])), "const_extra": 0,
+                                           "slack": [draw(st.sampled_from([0, 0, 0.05, 0.1, 0.2, 0.3, 0.45])) for _ in range(spec["n"])]},
+                "margin": draw(st.sampled_from([0.3, 0.5, 1.0])), "seed": draw(st.integers(0, 10 ** 6)),
+                "randomize_action_order": draw(st.booleans())}
     return {"mdp": spec, "heuristic": draw(heuristic_specs(spec["n"])),
             # (margin 0 - "solve exactly" - is legitimate; on cyclic stochastic problems the residual may never reach
             # exactly 0 in floating point, those runs end at the step budget and are counted as inconclusive)
@@ -168,6 +203,18 @@ def prop_lrtdp(case, ctx):
             ctx.check(abs(float(q) - want) <= 1e-9 * scale, "C04.q_is_lookahead_of_v", lambda: f"Q[{i}][{j}]={q} expected {want}")
     # returned policy: closure, availability, expected steps, exact return
     pi, seen = policy_closure(ctx, "C04", res.policy, spec, ref, view)
+    # "labelled solved" (Bonet & Geffner): every state the greedy policy can reach from a solved state is consistent
+    # to within the margin - checked on the final values over the returned policy's own closure
+    def _val(k):
+        return 0.0 if spec["absorbing"][k] else float(res.V[view.S[k]])
+    for s in sorted(seen):
+        if spec["absorbing"][s]:
+            continue
+        acts = [a for a in range(ref.m) if pi[s, a] > 0 and ref.avail[s, a]]
+        for a in acts:
+            q_sa = sum(ref.T[s, a, k] * (ref.R[s, a, k] + ref.gamma * _val(k)) for k in range(ref.n) if ref.W[s, a, k] > 0)
+            ctx.check(abs(_val(s) - q_sa) <= margin + TOL * scale, "C04.greedy_envelope_residual_exceeds_margin",
+                      lambda: f"state {s} on the returned policy's closure: V={_val(s)}, look-ahead of its action {a} = {q_sa}, margin {margin}")
     N = ref.expected_steps(pi)
     ev = ref.evaluate(pi)
     for s in init:
